@@ -54,10 +54,10 @@ def targets(tier):
 def traces(target, rng, tier):
     p = target.params; nif = p["nif"]
     cmax = cfg_consts(p["clock"], p["fs_only"])["cmax"]
-    n = 12 if tier == "quick" else 60
+    n = 8 if tier == "quick" else 60
     out = []
     for k in range(n):
-        length = rng.choice([5, 40, cmax + 5, cmax + 40, 2 * cmax + 10])
+        length = rng.choice([5, 40, cmax + 5, cmax + 40] + ([2 * cmax + 10] if tier != "quick" else []))
         pstart = rng.choice([0.0, 0.005, 0.02, 0.2])
         pspeed = rng.choice([0.0, 0.0, 0.01, 0.3])
         speed = rng.choice([0, 1, 2, 2, 3]) if k >= 4 else k % 4
